@@ -369,13 +369,27 @@ def render_network(desc, rd, parent_sys):
                      units_system=UnitsSystem(**si.sys_dict(nsys)))
 
 
+def bc_dict_form(bc, r):
+    """a boundary-conditions dictionary in a random but equivalent surface form: any key order, axes left at the
+    default ("reflecting") possibly omitted"""
+    keys = [k for k in ("x", "y", "z") if k in bc]
+    r.shuffle(keys)
+    drop = r.random() < 0.5
+    out = {}
+    for k in keys:
+        if drop and bc[k] == "reflecting" and r.random() < 0.7:
+            continue
+        out[k] = bc[k]
+    return out
+
+
 def render_space(desc, rd, parent_sys):
     from strengths import RDGridSpace, RDGraphSpace, RDGraphSpaceNode, RDGraphSpaceEdge, UnitsSystem
     sp = desc["space"]
     ssys = rd.level("space", parent_sys)
     if sp["type"] == "grid":
         return RDGridSpace(w=sp["w"], h=sp["h"], d=sp["d"], cell_env=list(sp["cell_env"]),
-                           cell_vol=rd.q(sp["cell_vol"], VOL_DIM, ssys), boundary_conditions=dict(sp["bc"]),
+                           cell_vol=rd.q(sp["cell_vol"], VOL_DIM, ssys), boundary_conditions=bc_dict_form(sp["bc"], rd.r),
                            units_system=UnitsSystem(**si.sys_dict(ssys)))
     nodes, edges = [], []
     for n, nd in enumerate(sp["nodes"]):
@@ -486,7 +500,7 @@ def system_dict(desc, rd, parent_sys=None):
         gd = {"type": "grid", r.choice(["w", "width"]): sp["w"], r.choice(["h", "height"]): sp["h"], r.choice(["d", "depth"]): sp["d"],
               r.choice(["cell_env", "cell_environments", "env"]): list(sp["cell_env"]),
               r.choice(["cell_volume", "cell_vol"]): _q_json(rd, sp["cell_vol"], VOL_DIM, ssys),
-              "boundary_conditions": dict(sp["bc"])}
+              "boundary_conditions": bc_dict_form(sp["bc"], r)}
         _units_entry(rd, gd, ssys, sysu)
         d[r.choice(["space", "rdspace"])] = gd
     else:
